@@ -247,7 +247,13 @@ def run(ctx):
         r3.ok("one-push", "exactly one push per key event")
     else:
         r3.violation("one-push", "a key event pushes %d times" % len(pushes), common.fn_line(prog, R["get_suggestion"]))
-    r3.floor(3, "writers, resuggest, one-push")
+    # what an event hands out is built on that event's path (both events that show a suggestion)
+    for ev in ("get_suggestion", "backspace_event"):
+        try:
+            common.built_now(r3, prog, prog.method_impl(R["method_ty"], ev), ev, names, fresh_list=True)
+        except Exception as e:     # fail closed
+            r3.undecidable("built-now:%s" % ev, "analysis failed: %s: %s" % (type(e).__name__, e))
+    r3.floor(5, "writers, resuggest, one-push, built-now ×2")
 
     # ---------------- R4 no shared / global state
     r4 = chk.rule("C05.R4", "no global or shared mutable state: no statics, thread-locals, Rc/Arc or raw pointers outside the C shim",
